@@ -507,9 +507,32 @@ fn exhaustive(out: &mut Out, max_params: usize, max_args: usize, long_tails: boo
     }
 }
 
+/// calls with an open argument (a call / `...`) that is NOT last, followed only by keyword literals or other closed arguments,
+/// against definitions with three to five required parameters: whether more values may arrive is a matter of the LAST argument
+fn open_not_last(out: &mut Out) {
+    let any = |r: Required| arg(r, ArgumentType::Any);
+    for n_required in 3..=5usize {
+        for n_optional in 0..=1usize {
+            let mut ps: Vec<Argument> = (0..n_required).map(|_| any(Required::Required(None))).collect();
+            ps.extend((0..n_optional).map(|_| any(Required::NotRequired)));
+            let kind = FieldKind::Function(FunctionBehavior { arguments: ps, method: false, must_use: false });
+            let mut calls: Vec<String> = Vec::new();
+            for open in ["g()", "...", "x:m()", "(g())", "g() or 1"] {
+                for tail in [vec!["nil"], vec!["true"], vec!["false"], vec!["nil", "nil"], vec!["1"], vec!["x"], vec!["\"s\""], vec!["{}"], vec!["nil", "true"], vec!["function() end"], vec!["nil", "g()"], vec!["true", "..."]] {
+                    calls.push(format!("fn({open}, {})", tail.join(", ")));
+                    calls.push(format!("fn(1, {open}, {})", tail.join(", ")));
+                }
+            }
+            out.add("open_not_last_functions", 1);
+            run_unit(out, &kind, "fn", &calls);
+        }
+    }
+}
+
 pub fn run(args: &Args, out: &mut Out) {
     let mut rng = Rng::new(args.seed);
     let thorough = args.tier == "thorough";
+    open_not_last(out);
 
     // --- probes shaped like the shipped library (lua51.yml: collectgarbage, math.abs, math.max,
     //     string.upper, debug.setlocal) --------------------------------------------------------
